@@ -75,6 +75,14 @@ def tokens(stmts, simple, deco, mark_regs):
     return out
 
 
+def mask_from(toks):
+    out = list(toks)
+    for i, t in enumerate(toks):
+        if t == 'from' and i + 2 < len(out):
+            out[i + 1] = out[i + 2] = '?'
+    return out
+
+
 def run_case(c, d):
     for rel, text in c['files'].items():
         p = os.path.join(d, rel)
@@ -93,7 +101,12 @@ def run_case(c, d):
         simple, deco = Interner(), Interner()
         orig = prof._get_script_ast_tree(script)          # module mode: relative imports already absolute
         orig_tokens = tokens(orig.body, simple, deco, False) + ['}']
-        plain = ast.parse(open(script).read())
+        with open(script, 'rb') as fh:
+            plain = ast.parse(fh.read())           # the file as it is on disk now, decoded the way the compiler decodes it
+        # what the profiler read must be the file that is there now (the same path is reused from case to case in this process: a cached
+        # earlier content must not come back); in module mode only the relative imports may differ (they are made absolute)
+        plain_tokens = tokens(plain.body, simple, deco, False) + ['}']
+        read_ok = mask_from(orig_tokens) == mask_from(plain_tokens) if c['module'] else orig_tokens == plain_tokens
         full = prof._check_profile_full_script(script, prof_mod)
         matched = ProfmodExtractor(prof._get_script_ast_tree(script), script, prof_mod).run()
         err = None
@@ -107,7 +120,7 @@ def run_case(c, d):
         # relative imports of the plain tree, for the absolutise comparison
         rel = [[n.module, n.level, [[a.name, a.asname] for a in n.names], n.lineno] for n in ast.walk(plain) if isinstance(n, ast.ImportFrom)]
         ab = [[n.module, n.level, [[a.name, a.asname] for a in n.names], n.lineno] for n in ast.walk(orig) if isinstance(n, ast.ImportFrom)]
-        return {'orig': orig_tokens, 'new': new_tokens, 'error': err, 'full': bool(full), 'matched': [[int(k), v] for k in sorted(matched) for v in (matched[k] if isinstance(matched[k], list) else [matched[k]])],
+        return {'read_ok': read_ok, 'orig': orig_tokens, 'new': new_tokens, 'error': err, 'full': bool(full), 'matched': [[int(k), v] for k in sorted(matched) for v in (matched[k] if isinstance(matched[k], list) else [matched[k]])],
                 'importfrom_plain': rel, 'importfrom_abs': ab}
     finally:
         os.chdir(old_cwd)
@@ -120,10 +133,19 @@ def run_case(c, d):
 def main():
     payload = json.load(sys.stdin)
     res = []
-    for c in payload['cases']:
-        with tempfile.TemporaryDirectory(prefix='c08-', dir=os.environ.get('LPVERIF_SCRATCH', '/var/tmp')) as d:
+    import importlib
+    import shutil
+    # one directory for all the cases of this process: the same path holds another program each time, as when a file is edited between two
+    # in-process kernprof runs
+    with tempfile.TemporaryDirectory(prefix='c08-', dir=os.environ.get('LPVERIF_SCRATCH', '/var/tmp')) as d:
+        d = os.path.realpath(d)
+        for c in payload['cases']:
+            for n in os.listdir(d):
+                p = os.path.join(d, n)
+                shutil.rmtree(p) if os.path.isdir(p) else os.remove(p)
+            importlib.invalidate_caches()
             try:
-                res.append(run_case(c, os.path.realpath(d)))
+                res.append(run_case(c, d))
             except Exception:
                 import traceback
                 res.append({'harness_error': traceback.format_exc()})
